@@ -17,7 +17,8 @@ def handlers : List (String × Handler) := [
   ("txbody36", handleTxbody36),
   ("txbody14", handleTxbody14),
   ("cursor", handleCursor),
-  ("interp", handleInterp)
+  ("interp", handleInterp),
+  ("interp36", handleInterp36)
 ]
 
 end Ledger.Driver.Api
